@@ -3,7 +3,8 @@
    definitions at Qops on states captured from the implementation. *)
 From Coq Require Import Reals List Arith Lia Lra.
 From TLV Require Import Base.Shape Base.PyList Base.Tensor Base.Ops Base.RSum Model.Descent
-  Proofs.DescentProofs Proofs.DescentProofsHals Proofs.DescentProofsLink Proofs.DescentProofsOrth Proofs.DescentProofsNorm Proofs.DescentProofsNN Proofs.DescentProofsReg Proofs.DescentProofsTucker Proofs.DescentProofsCmtf Proofs.DescentProofsTkReg Proofs.DescentProofsTR Proofs.DescentProofsUnfold.
+  Model.DescentReport Proofs.DescentProofs Proofs.DescentProofsHals Proofs.DescentProofsLink Proofs.DescentProofsOrth Proofs.DescentProofsNorm Proofs.DescentProofsNN Proofs.DescentProofsReg Proofs.DescentProofsTucker Proofs.DescentProofsCmtf Proofs.DescentProofsTkReg Proofs.DescentProofsTR Proofs.DescentProofsUnfold
+  Proofs.DescentProofsSpec Proofs.DescentProofsSweeps Proofs.DescentProofsSweeps2 Proofs.DescentProofsReport.
 Import ListNotations.
 Open Scope R_scope.
 
@@ -368,6 +369,151 @@ Theorem C07_tr_block_descent : forall (X : tensor R) (pre post : list (tensor R)
 Proof. exact tr_block_descent. Qed.
 Print Assumptions C07_tr_block_descent.
 
+
+(* ================= round 5: Ky Fan / Procrustes proved from certificates; sweeps, histories and REPORTED errors ================= *)
+
+(* Ky Fan's maximum principle PROVED from a spectral certificate: (Q, lam) is a full eigen-decomposition of Y Y' handed in as DATA
+   (Q'Q = QQ' = I, Q'YY'Q = diag(lam), lam non-increasing - a contract the harness checks on the recorded answer of an independent LAPACK
+   call); then ||W'Y||_F^2 <= lam_0 + .. + lam_{r-1} for EVERY W with orthonormal columns, any sizes *)
+Theorem C07_ky_fan_bound : forall (m r p : nat) (Y Q : fmat) (lam : nat -> R), orthonormal m m Q -> orthonormal m m (mT Q) -> (forall i j : nat, (i < m)%nat -> (j < m)%nat -> rsum p (fun c : nat => mmul m (mT Q) Y i c * mmul m (mT Q) Y j c) = delta i j * lam i) -> (forall i j : nat, (i <= j)%nat -> (j < m)%nat -> lam j <= lam i) -> (r <= m)%nat -> forall W : fmat, orthonormal m r W -> frob2 r p (mmul m (mT W) Y) <= rsum r lam.
+Proof. exact ky_fan_bound. Qed.
+Print Assumptions C07_ky_fan_bound.
+
+(* hence the matrix-level HOOI block WITHOUT the Ky Fan hypothesis: the new factor only has to ATTAIN the sum of the leading
+   eigenvalues (checked per run on the SVD answer the implementation used) *)
+Theorem C07_hooi_block_descent : forall (m r p : nat) (Uold Unew Y Q : fmat) (lam : nat -> R), (r <= m)%nat -> orthonormal m m Q -> orthonormal m m (mT Q) -> (forall i j : nat, (i < m)%nat -> (j < m)%nat -> rsum p (fun c : nat => mmul m (mT Q) Y i c * mmul m (mT Q) Y j c) = delta i j * lam i) -> (forall i j : nat, (i <= j)%nat -> (j < m)%nat -> lam j <= lam i) -> orthonormal m r Uold -> orthonormal m r Unew -> rsum r lam <= frob2 r p (mmul m (mT Unew) Y) -> frob2 m p (msub Y (mmul r Unew (mmul m (mT Unew) Y))) <= frob2 m p (msub Y (mmul r Uold (mmul m (mT Uold) Y))).
+Proof. exact hooi_block_descent_cert. Qed.
+Print Assumptions C07_hooi_block_descent.
+
+(* orthogonal Procrustes bound PROVED from a thin-SVD certificate Z = A diag(sg) B' (unit columns of A, B'B = I, sg >= 0):
+   <W, Z> <= sum(sg) for EVERY W with orthonormal columns *)
+Theorem C07_procrustes_bound : forall (J R' : nat) (Z A B : fmat) (sg : nat -> R), (forall k : nat, (k < R')%nat -> rsum J (fun i : nat => A i k * A i k) = 1) -> orthonormal R' R' B -> (forall k : nat, (k < R')%nat -> 0 <= sg k) -> (forall i j : nat, (i < J)%nat -> (j < R')%nat -> Z i j = rsum R' (fun k : nat => A i k * sg k * B j k)) -> forall W : fmat, orthonormal J R' W -> minner J R' W Z <= rsum R' sg.
+Proof. exact procrustes_bound. Qed.
+Print Assumptions C07_procrustes_bound.
+
+(* hence the PARAFAC2 projection block WITHOUT the Procrustes hypothesis: the new projection only has to attain the nuclear norm of X M' *)
+Theorem C07_parafac2_projection_descent : forall (J R' K : nat) (Pold Pnew X M A B : fmat) (sg : nat -> R), (forall k : nat, (k < R')%nat -> rsum J (fun i : nat => A i k * A i k) = 1) -> orthonormal R' R' B -> (forall k : nat, (k < R')%nat -> 0 <= sg k) -> (forall i j : nat, (i < J)%nat -> (j < R')%nat -> mmul K X (mT M) i j = rsum R' (fun k : nat => A i k * sg k * B j k)) -> orthonormal J R' Pold -> orthonormal J R' Pnew -> rsum R' sg <= minner J R' Pnew (mmul K X (mT M)) -> frob2 J K (msub X (mmul R' Pnew M)) <= frob2 J K (msub X (mmul R' Pold M)).
+Proof. exact parafac2_projection_descent_cert. Qed.
+Print Assumptions C07_parafac2_projection_descent.
+
+(* HOOI block on the Tucker objective itself (all orders, mode subsets), Ky Fan proved: spectral certificate of the unfolding Y_k Y_k' + attained value *)
+Theorem C07_hooi_unfolding_block_descent : forall (X : tensor R) (rs : list nat) (Us : list (list (list R))) (k : nat) (Unew : list (list R)) (Q : fmat) (lam : nat -> R), (k < length (shape X))%nat -> length rs = length (shape X) -> (k < length Us)%nat -> (nth k rs 0 <= nth k (shape X) 0)%nat -> orth_all (shape X) rs Us -> orth_all (shape X) rs (set_nth k Unew Us) -> spectral_cert (nth k (shape X) 0%nat) (prod (set_nth k 1%nat rs)) (unfold_k X rs Us k) Q lam -> rsum (nth k rs 0%nat) lam <= frob2 (nth k rs 0%nat) (prod (set_nth k 1%nat rs)) (mmul (nth k (shape X) 0%nat) (mT (mget Rops Unew)) (unfold_k X rs Us k)) -> tk_hooi_obj Rops X rs (set_nth k Unew Us) <= tk_hooi_obj Rops X rs Us.
+Proof. exact hooi_unfolding_block_descent_cert. Qed.
+Print Assumptions C07_hooi_unfolding_block_descent.
+
+(* HOOI sweeps (any list of modes; the SVD is an oracle whose contract - orthonormal columns, spectral certificate, attained value - is
+   required at the visited states only) never increase ||X - core x U||^2, the objective values after 0,1,2,.. sweeps are non-increasing, and so
+   are the errors partial_tucker REPORTS, sqrt(| ||X||^2 - ||core||^2 |) / ||X|| *)
+Theorem C07_hooi_sweep_descent : forall (X : tensor R) (rs : list nat) (svd : list (list (list R)) -> nat -> list (list R)) (modes : list nat) (Us : list (list (list R))), hooi_sweep_ok X rs svd modes Us -> tk_hooi_obj Rops X rs (hooi_sweep svd modes Us) <= tk_hooi_obj Rops X rs Us.
+Proof. exact hooi_sweep_descent. Qed.
+Print Assumptions C07_hooi_sweep_descent.
+Theorem C07_hooi_history_monotone : forall (X : tensor R) (rs : list nat) (svd : list (list (list R)) -> nat -> list (list R)) (modes : list nat) (Us : list (list (list R))) (n : nat), run_ok (list (list (list R))) (hooi_sweep svd modes) (hooi_sweep_ok X rs svd modes) n Us -> forall i j : nat, (i <= j)%nat -> (j <= n)%nat -> tk_hooi_obj Rops X rs (Nat.iter j (hooi_sweep svd modes) Us) <= tk_hooi_obj Rops X rs (Nat.iter i (hooi_sweep svd modes) Us).
+Proof. exact hooi_history_monotone. Qed.
+Print Assumptions C07_hooi_history_monotone.
+Theorem C07_hooi_reported_monotone : forall (X : tensor R) (rs : list nat) (svd : list (list (list R)) -> nat -> list (list R)) (modes : list nat) (Us : list (list (list R))) (n : nat), run_ok (list (list (list R))) (hooi_sweep svd modes) (hooi_sweep_ok X rs svd modes) n Us -> (forall i : nat, (i <= n)%nat -> orth_all (shape X) rs (Nat.iter i (hooi_sweep svd modes) Us)) -> forall i j : nat, (i <= j)%nat -> (j <= n)%nat -> tk_reported X rs (Nat.iter j (hooi_sweep svd modes) Us) <= tk_reported X rs (Nat.iter i (hooi_sweep svd modes) Us).
+Proof. exact hooi_reported_monotone. Qed.
+Print Assumptions C07_hooi_reported_monotone.
+
+(* tensor-ring ALS sweeps (any list of block indices; the least-squares solver is an oracle: bond ranks kept, normal equations of the MODEL's
+   sub-chain design matrix at the visited states): ||X - TR(cores)||^2, its history and the reported relative errors are non-increasing *)
+Theorem C07_tr_sweep_descent : forall (X : tensor R) (lsq : list (tensor R) -> nat -> tensor R) (dims : list nat) (cs : list (tensor R)), tr_sweep_ok X lsq dims cs -> tr_sqerr Rops X (tr_sweep lsq dims cs) <= tr_sqerr Rops X cs.
+Proof. exact tr_sweep_descent. Qed.
+Print Assumptions C07_tr_sweep_descent.
+Theorem C07_tr_history_monotone : forall (X : tensor R) (lsq : list (tensor R) -> nat -> tensor R) (dims : list nat) (cs : list (tensor R)) (n : nat), run_ok (list (tensor R)) (tr_sweep lsq dims) (tr_sweep_ok X lsq dims) n cs -> forall i j : nat, (i <= j)%nat -> (j <= n)%nat -> tr_sqerr Rops X (Nat.iter j (tr_sweep lsq dims) cs) <= tr_sqerr Rops X (Nat.iter i (tr_sweep lsq dims) cs).
+Proof. exact tr_history_monotone. Qed.
+Print Assumptions C07_tr_history_monotone.
+Theorem C07_tr_reported_monotone : forall (X : tensor R) (lsq : list (tensor R) -> nat -> tensor R) (dims : list nat) (cs : list (tensor R)) (n : nat), run_ok (list (tensor R)) (tr_sweep lsq dims) (tr_sweep_ok X lsq dims) n cs -> forall i j : nat, (i <= j)%nat -> (j <= n)%nat -> rel_err (normsq X) (tr_sqerr Rops X (Nat.iter j (tr_sweep lsq dims) cs)) <= rel_err (normsq X) (tr_sqerr Rops X (Nat.iter i (tr_sweep lsq dims) cs)).
+Proof. exact tr_reported_monotone. Qed.
+Print Assumptions C07_tr_reported_monotone.
+
+(* ALS sweep followed by the accept/reject decision of a line search (generic): whatever the extrapolation proposes, the error after the
+   iteration is not above the error before it; histories *)
+Theorem C07_ls_step_descent : forall (St : Type) (f : St -> R) (sweep : St -> St) (jump : St -> St -> St) (ok : St -> Prop), (forall s : St, ok s -> f (sweep s) <= f s) -> forall s : St, ok s -> f (ls_step St f sweep jump s) <= f s.
+Proof. exact ls_step_descent. Qed.
+Print Assumptions C07_ls_step_descent.
+Theorem C07_ls_history_monotone : forall (St : Type) (f : St -> R) (sweep : St -> St) (jump : St -> St -> St) (ok : St -> Prop), (forall s : St, ok s -> f (sweep s) <= f s) -> forall (n : nat) (s : St), run_ok St (ls_step St f sweep jump) ok n s -> forall i j : nat, (i <= j)%nat -> (j <= n)%nat -> f (Nat.iter j (ls_step St f sweep jump) s) <= f (Nat.iter i (ls_step St f sweep jump) s).
+Proof. exact ls_history_monotone. Qed.
+Print Assumptions C07_ls_history_monotone.
+
+(* instantiated with the CP-ALS sweep: iterations of parafac(linesearch=True) on the REPORTED relative error sqrt(||X-[[w;A..]]||^2)/||X||
+   (l2_reg = 0; the jump function is arbitrary), and plain CP-ALS runs on the reported relative error *)
+Theorem C07_cp_ls_history_monotone : forall (X : tensor R) (w : list R) (rank : nat) (solve : list (list R) -> list (list R) -> list (list R)) (modes : list nat) (jump : list (list (list R)) -> list (list (list R)) -> list (list (list R))) (facs : list (list (list R))) (n : nat), run_ok (list (list (list R))) (cp_ls_iter X w rank solve modes jump) (sweep_ok X w 0 rank solve modes) n facs -> forall i j : nat, (i <= j)%nat -> (j <= n)%nat -> cp_rel_err X w rank (Nat.iter j (cp_ls_iter X w rank solve modes jump) facs) <= cp_rel_err X w rank (Nat.iter i (cp_ls_iter X w rank solve modes jump) facs).
+Proof. exact cp_ls_history_monotone. Qed.
+Print Assumptions C07_cp_ls_history_monotone.
+Theorem C07_cp_reported_monotone : forall (X : tensor R) (w : list R) (rank : nat) (solve : list (list R) -> list (list R) -> list (list R)) (modes : list nat) (facs : list mat) (n : nat), run_ok (list mat) (cp_sweep Rops solve X w 0 rank modes) (sweep_ok X w 0 rank solve modes) n facs -> forall i j : nat, (i <= j)%nat -> (j <= n)%nat -> cp_rel_err X w rank (Nat.iter j (cp_sweep Rops solve X w 0 rank modes) facs) <= cp_rel_err X w rank (Nat.iter i (cp_sweep Rops solve X w 0 rank modes) facs).
+Proof. exact cp_reported_monotone. Qed.
+Print Assumptions C07_cp_reported_monotone.
+
+(* the reported relative error sqrt(|objective|)/sqrt(||X||^2) is monotone in a non-negative objective *)
+Theorem C07_rel_err_monotone : forall normsq a b : R, 0 <= a -> a <= b -> rel_err normsq a <= rel_err normsq b.
+Proof. exact rel_err_monotone. Qed.
+Print Assumptions C07_rel_err_monotone.
+
+(* what parafac computes as its unnormalised squared error, ||X||^2 + cp_norm^2 - 2 iprod with cp_norm^2 from the Hadamard product of the Grams
+   and iprod from the MTTKRP of the last updated mode, IS ||X - [[w; A..]]||^2 (every order, rank, weights, mode; also with l2_reg) *)
+Theorem C07_cp_reported_is_sqerr : forall (X : tensor R) (w : list R) (facs : list (list (list R))) (k rank : nat), (k < length (shape X))%nat -> (k < length facs)%nat -> cp_err2_reported Rops X w facs k rank = cp_sqerr Rops X w facs rank.
+Proof. exact cp_reported_is_sqerr. Qed.
+Print Assumptions C07_cp_reported_is_sqerr.
+
+(* one iteration of coupled_matrix_tensor_3d_factorization (V block, uncoupled CP blocks in any order, coupled block; every order of X; the
+   solvers are oracles with their normal equations / solve certificates at the visited states) never increases
+   ||X - [[w;A,..]]||^2 + ||Y - A V'||^2 - the quantity the function REPORTS - and its history is non-increasing *)
+Theorem C07_cmtf_iter_descent : forall (X : tensor R) (Y : list (list R)) (w : list R) (q rank : nat) (lsV : list (list (list R)) -> list (list R) -> list (list R)) (solve : list (list R) -> list (list R) -> list (list R)) (lsA : list (list (list R)) -> list (list R) -> list (list R)) (modes : list nat)  (st : cmtf_state), cmtf_iter_ok X Y w q rank lsV solve lsA modes st -> cmtf_f X Y w q rank (cmtf_iter X w rank lsV solve lsA modes st) <= cmtf_f X Y w q rank st.
+Proof. exact cmtf_iter_descent. Qed.
+Print Assumptions C07_cmtf_iter_descent.
+Theorem C07_cmtf_history_monotone : forall (X : tensor R) (Y : list (list R)) (w : list R) (q rank : nat) (lsV : list (list (list R)) -> list (list R) -> list (list R)) (solve : list (list R) -> list (list R) -> list (list R)) (lsA : list (list (list R)) -> list (list R) -> list (list R)) (modes : list nat)  (st : cmtf_state) (n : nat), run_ok cmtf_state (cmtf_iter X w rank lsV solve lsA modes) (cmtf_iter_ok X Y w q rank lsV solve lsA modes) n st -> forall i j : nat, (i <= j)%nat -> (j <= n)%nat -> cmtf_f X Y w q rank (Nat.iter j (cmtf_iter X w rank lsV solve lsA modes) st) <= cmtf_f X Y w q rank (Nat.iter i (cmtf_iter X w rank lsV solve lsA modes) st).
+Proof. exact cmtf_history_monotone. Qed.
+Print Assumptions C07_cmtf_history_monotone.
+
+(* CP regressor (scalar responses): whole sweeps of the ridge ALS over any list of modes never increase
+   ||y - predictions||^2 + reg * sum_j ||W_j||_F^2 ; histories *)
+Theorem C07_cpreg_sweep_descent : forall (Xsl : list (tensor R)) (ysl : list R) (sh : list nat) (w : list R) (rank : nat) (reg : R) (slv : list (list (list R)) -> nat -> list (list R)), 0 <= reg -> forall (modes : list nat) (facs : list (list (list R))), cpreg_sweep_ok Xsl ysl sh w rank reg slv modes facs -> cpreg_obj_all Xsl ysl sh w rank reg (cpreg_sweep slv modes facs) <= cpreg_obj_all Xsl ysl sh w rank reg facs.
+Proof. exact cpreg_sweep_descent. Qed.
+Print Assumptions C07_cpreg_sweep_descent.
+Theorem C07_cpreg_history_monotone : forall (Xsl : list (tensor R)) (ysl : list R) (sh : list nat) (w : list R) (rank : nat) (reg : R) (slv : list (list (list R)) -> nat -> list (list R)), 0 <= reg -> forall (modes : list nat) (facs : list (list (list R))) (n : nat), run_ok (list (list (list R))) (cpreg_sweep slv modes) (cpreg_sweep_ok Xsl ysl sh w rank reg slv modes) n facs -> forall i j : nat, (i <= j)%nat -> (j <= n)%nat -> cpreg_obj_all Xsl ysl sh w rank reg (Nat.iter j (cpreg_sweep slv modes) facs) <= cpreg_obj_all Xsl ysl sh w rank reg (Nat.iter i (cpreg_sweep slv modes) facs).
+Proof. exact cpreg_history_monotone. Qed.
+Print Assumptions C07_cpreg_history_monotone.
+
+(* PARAFAC2 coupling: for a projection with orthonormal columns ||X - P M||^2 = ||X||^2 - ||P'X||^2 + ||P'X - M||^2, so with the projections
+   fixed the CP step on the PROJECTED slices changes the PARAFAC2 objective by exactly what it changes its own *)
+Theorem C07_parafac2_pythagoras : forall (J R' K : nat) (P X M : fmat), orthonormal J R' P -> frob2 J K (msub X (mmul R' P M)) = frob2 J K X - frob2 R' K (mmul J (mT P) X) + frob2 R' K (msub (mmul J (mT P) X) M).
+Proof. exact parafac2_pythagoras. Qed.
+Print Assumptions C07_parafac2_pythagoras.
+
+(* one PARAFAC2 iteration (new projections with the Procrustes optimality proved from per-slice thin-SVD certificates, then any inner step that
+   does not increase the error of the projected tensor, e.g. CP-ALS / HALS sweeps by C07_cp_sweep_descent / C07_nn_sweep_descent) never increases
+   sum_i ||X_i - P_i B diag(a_i) C'||^2 ; histories; reported relative errors with and without line search (slices of different row counts allowed) *)
+Theorem C07_parafac2_iter_descent : forall (I : nat) (J : nat -> nat) (R' K : nat) (X : nat -> fmat) (Th : Type) (Mof proj : Th -> nat -> fmat) (cpstep : (nat -> fmat) -> Th -> Th) (st : p2_state Th), p2_iter_ok I J R' K X Th Mof proj cpstep st -> p2_obj I J R' K X Th Mof (p2_iter Th proj cpstep st) <= p2_obj I J R' K X Th Mof st.
+Proof. exact p2_iter_descent. Qed.
+Print Assumptions C07_parafac2_iter_descent.
+Theorem C07_parafac2_history_monotone : forall (I : nat) (J : nat -> nat) (R' K : nat) (X : nat -> fmat) (Th : Type) (Mof proj : Th -> nat -> fmat) (cpstep : (nat -> fmat) -> Th -> Th) (st : p2_state Th) (n : nat), run_ok (p2_state Th) (p2_iter Th proj cpstep) (p2_iter_ok I J R' K X Th Mof proj cpstep) n st -> forall i j : nat, (i <= j)%nat -> (j <= n)%nat -> p2_obj I J R' K X Th Mof (Nat.iter j (p2_iter Th proj cpstep) st) <= p2_obj I J R' K X Th Mof (Nat.iter i (p2_iter Th proj cpstep) st).
+Proof. exact p2_history_monotone. Qed.
+Print Assumptions C07_parafac2_history_monotone.
+Theorem C07_parafac2_ls_history_monotone : forall (I : nat) (J : nat -> nat) (R' K : nat) (X : nat -> fmat) (Th : Type) (Mof proj : Th -> nat -> fmat) (cpstep : (nat -> fmat) -> Th -> Th)  (normX2 : R) (jump : p2_state Th -> p2_state Th -> p2_state Th) (st : p2_state Th) (n : nat), run_ok (p2_state Th) (ls_step (p2_state Th) (p2_rel_err I J R' K X Th Mof normX2) (p2_iter Th proj cpstep) jump) (p2_iter_ok I J R' K X Th Mof proj cpstep) n st -> forall i j : nat, (i <= j)%nat -> (j <= n)%nat -> p2_rel_err I J R' K X Th Mof normX2 (Nat.iter j (ls_step (p2_state Th) (p2_rel_err I J R' K X Th Mof normX2) (p2_iter Th proj cpstep) jump) st) <= p2_rel_err I J R' K X Th Mof normX2 (Nat.iter i (ls_step (p2_state Th) (p2_rel_err I J R' K X Th Mof normX2) (p2_iter Th proj cpstep) jump) st).
+Proof. exact p2_ls_history_monotone. Qed.
+Print Assumptions C07_parafac2_ls_history_monotone.
+Theorem C07_parafac2_reported_monotone : forall (I : nat) (J : nat -> nat) (R' K : nat) (X : nat -> fmat) (Th : Type) (Mof proj : Th -> nat -> fmat) (cpstep : (nat -> fmat) -> Th -> Th)  (normX2 : R) (st : p2_state Th) (n : nat), run_ok (p2_state Th) (p2_iter Th proj cpstep) (p2_iter_ok I J R' K X Th Mof proj cpstep) n st -> forall i j : nat, (i <= j)%nat -> (j <= n)%nat -> p2_rel_err I J R' K X Th Mof normX2 (Nat.iter j (p2_iter Th proj cpstep) st) <= p2_rel_err I J R' K X Th Mof normX2 (Nat.iter i (p2_iter Th proj cpstep) st).
+Proof. exact p2_reported_monotone. Qed.
+Print Assumptions C07_parafac2_reported_monotone.
+
+
+(* Tucker regressor (scalar responses): iterations of the ridge ALS (any list of blocks, Some k = factor k, None = the core) never increase
+   ||y - predictions||^2 + reg * (||G||^2 + sum_j ||W_j||_F^2) ; histories *)
+Theorem C07_tkreg_sweep_descent : forall (Xsl : list (tensor R)) (ysl : list R) (sh rs : list nat) (reg : R) (slvF : list R -> list (list (list R)) -> nat -> list (list R))
+  (slvG : list R -> list (list (list R)) -> list R), 0 <= reg ->
+  forall (bs : list (option nat)) (st : tkreg_state),
+  tkreg_sweep_ok Xsl ysl sh rs reg slvF slvG bs st -> tkreg_obj_all Xsl ysl sh rs reg (tkreg_sweep slvF slvG bs st) <= tkreg_obj_all Xsl ysl sh rs reg st.
+Proof. exact tkreg_sweep_descent. Qed.
+Print Assumptions C07_tkreg_sweep_descent.
+Theorem C07_tkreg_history_monotone : forall (Xsl : list (tensor R)) (ysl : list R) (sh rs : list nat) (reg : R) (slvF : list R -> list (list (list R)) -> nat -> list (list R))
+  (slvG : list R -> list (list (list R)) -> list R), 0 <= reg ->
+  forall (bs : list (option nat)) (st : tkreg_state) (n : nat),
+  run_ok tkreg_state (tkreg_sweep slvF slvG bs) (tkreg_sweep_ok Xsl ysl sh rs reg slvF slvG bs) n st ->
+  forall i j : nat, (i <= j)%nat -> (j <= n)%nat ->
+  tkreg_obj_all Xsl ysl sh rs reg (Nat.iter j (tkreg_sweep slvF slvG bs) st) <= tkreg_obj_all Xsl ysl sh rs reg (Nat.iter i (tkreg_sweep slvF slvG bs) st).
+Proof. exact tkreg_history_monotone. Qed.
+Print Assumptions C07_tkreg_history_monotone.
+
 (* ---------- non-vacuity: the hypotheses of the theorems above are satisfiable (and the descent can be strict) ---------- *)
 Example C07_cp_nonvacuous :
   let X := mk [2;2]%nat [1;2;3;4] in let w := [1] in let facs := [[[1];[1]]; [[1];[2]]] in
@@ -489,3 +635,60 @@ Example C07_tr_nonvacuous :
   let G := mk [1;2;1]%nat [1;2] in
   chain_ok 1 [] (nth 0 (shape G) 0%nat) /\ chain_ok (nth 2 (shape G) 0%nat) [G] 1 /\ (0 < nth 2 (shape G) 0)%nat.
 Proof. cbv zeta. simpl. repeat split; lia. Qed.
+
+(* round 5: the spectral certificate (Y = first unit vector of R^2, Q = I, lam = (1, 0)) and the thin-SVD certificate
+   (Z = first unit vector, A = Z, sg = (1), B = (1)) are satisfiable, and the unit vector attains both optimal values *)
+Example C07_spectral_nonvacuous :
+  let Q := (fun i j : nat => if Nat.eqb i j then 1 else 0) : fmat in let lam := fun i : nat => match i with O => 1 | _ => 0 end in
+  spectral_cert 2 1 e1 Q lam /\ orthonormal 2 1 e1 /\ rsum 1 lam <= frob2 1 1 (mmul 2 (mT e1) e1).
+Proof.
+  cbv zeta. split; [|split].
+  - unfold spectral_cert. repeat split.
+    + intros a b Ha Hb. destruct a as [|[|a]]; destruct b as [|[|b]]; try lia; vm_compute; ring.
+    + intros a b Ha Hb. destruct a as [|[|a]]; destruct b as [|[|b]]; try lia; vm_compute; ring.
+    + intros i j Hi Hj. destruct i as [|[|i]]; destruct j as [|[|j]]; try lia; vm_compute; ring.
+    + intros i j Hij Hj. destruct i as [|[|i]]; destruct j as [|[|j]]; try lia; lra.
+  - intros a b Ha Hb. assert (a = 0%nat) by lia. assert (b = 0%nat) by lia. subst. vm_compute. ring.
+  - vm_compute. lra.
+Qed.
+
+Example C07_procrustes_nonvacuous :
+  let B := (fun _ _ : nat => 1) : fmat in let sg := fun _ : nat => 1 in
+  (forall k : nat, (k < 1)%nat -> rsum 2 (fun i => e1 i k * e1 i k) = 1) /\ orthonormal 1 1 B /\ (forall k : nat, (k < 1)%nat -> 0 <= sg k) /\
+  (forall i j : nat, (i < 2)%nat -> (j < 1)%nat -> e1 i j = rsum 1 (fun k => e1 i k * sg k * B j k)) /\
+  orthonormal 2 1 e1 /\ rsum 1 sg <= minner 2 1 e1 e1.
+Proof.
+  cbv zeta. repeat split.
+  - intros k Hk. assert (k = 0%nat) by lia; subst. vm_compute. ring.
+  - intros a b Ha Hb. assert (a = 0%nat) by lia. assert (b = 0%nat) by lia. subst. vm_compute. ring.
+  - intros; lra.
+  - intros i j Hi Hj. assert (j = 0%nat) by lia; subst. destruct i as [|[|i]]; try lia; vm_compute; ring.
+  - intros a b Ha Hb. assert (a = 0%nat) by lia. assert (b = 0%nat) by lia. subst. vm_compute. ring.
+  - vm_compute. lra.
+Qed.
+
+(* a HOOI block at tensor level: X = e1 (x) e1 (2 x 2), ranks (1, 1), factors e1, e1; the oracle answers e1: the contract of
+   C07_hooi_sweep_descent holds at this state, so sweeps / runs of any length over mode 0 are covered *)
+Example C07_hooi_sweep_nonvacuous :
+  let X := mk [2;2]%nat [1;0;0;0] in let Us := [[[1];[0]]; [[1];[0]]] in
+  hooi_sweep_ok X [1;1]%nat (fun _ _ => [[1];[0]]) [0%nat] Us.
+Proof.
+  cbv zeta.
+  assert (H : orthonormal 2 1 (mget Rops [[1];[0]])).
+  { intros a b Ha Hb. assert (a = 0%nat) by lia. assert (b = 0%nat) by lia. subst. vm_compute. ring. }
+  split; [|exact I]. unfold hooi_block_ok, hooi_block. cbn [shape length nth set_nth].
+  split; [lia|]. split; [reflexivity|]. split; [lia|]. split; [lia|].
+  split; [simpl; repeat split; exact H|]. split; [simpl; repeat split; exact H|].
+  exists (fun i j : nat => if Nat.eqb i j then 1 else 0), (fun i : nat => match i with O => 1 | _ => 0 end).
+  split.
+  - unfold spectral_cert. repeat split.
+    + intros a b Ha Hb. destruct a as [|[|a]]; destruct b as [|[|b]]; try lia; vm_compute; ring.
+    + intros a b Ha Hb. destruct a as [|[|a]]; destruct b as [|[|b]]; try lia; vm_compute; ring.
+    + intros i j Hi Hj. destruct i as [|[|i]]; destruct j as [|[|j]]; try lia; vm_compute; ring.
+    + intros i j Hij Hj. destruct i as [|[|i]]; destruct j as [|[|j]]; try lia; lra.
+  - vm_compute. lra.
+Qed.
+
+(* line search: with an arbitrary jump the composite step is defined and descends whenever the sweep does (trivial state space) *)
+Example C07_ls_step_nonvacuous : ls_step R (fun x => x) (fun x => x / 2) (fun _ a => a - 1) 4 = 1.
+Proof. unfold ls_step, ls_choose. destruct (Rlt_dec (4 / 2 - 1) 4); lra. Qed.
